@@ -86,6 +86,26 @@ func isPoolGet(e ast.Expr) bool {
 	return s == "EtherBufferPool.Get" || s == "packet.EtherBufferPool.Get"
 }
 
+// isFrameAlloc: [packet.]Ether(make([]byte, N)) — a frame buffer that is allocated instead of taken from the pool
+func (t *sendTr) isFrameAlloc(e ast.Expr) (string, bool) {
+	c, ok := paren(e).(*ast.CallExpr)
+	if !ok || len(c.Args) != 1 {
+		return "", false
+	}
+	if tv, ok := t.info.Types[c.Fun]; !ok || !tv.IsType() || !isByteSlice(tv.Type) {
+		return "", false
+	}
+	mk, ok := paren(c.Args[0]).(*ast.CallExpr)
+	if !ok || len(mk.Args) != 2 {
+		return "", false
+	}
+	if id, ok := mk.Fun.(*ast.Ident); !ok || id.Name != "make" {
+		return "", false
+	}
+	n, ok := t.constVal(mk.Args[1])
+	return n, ok
+}
+
 // sessionPath: a selector chain rooted at the receiver or at a package-level variable; returns the argument name
 func (t *sendTr) sessionPath(e ast.Expr) (string, bool) {
 	var names []string
@@ -242,6 +262,30 @@ func (t *sendTr) slArg(e ast.Expr) (string, error) {
 				t.emit("let %s ← etherPayloadSl m %s", x, base.lean)
 				t.emit("let %s := orNil m %s", x, x)
 				return x, nil
+			}
+		}
+	}
+	if c, ok := e.(*ast.CallExpr); ok && len(c.Args) == 0 && t.p != rootPackage {
+		// a `return p[c:]` getter of package packet called from a handler package
+		if sel, ok := c.Fun.(*ast.SelectorExpr); ok {
+			if base := t.slOf(sel.X); base != nil {
+				if fn, ok := t.info.Uses[sel.Sel].(*types.Func); ok {
+					if r := fn.Type().(*types.Signature).Recv(); r != nil && encCallees[namedName(r.Type())+"."+fn.Name()].fn == "" {
+						if fd := findFunc(rootPackage, namedName(r.Type()), fn.Name()); fd != nil && fd.Body != nil && len(fd.Body.List) == 1 {
+							if rs, ok := fd.Body.List[0].(*ast.ReturnStmt); ok && len(rs.Results) == 1 {
+								if sl, ok := paren(rs.Results[0]).(*ast.SliceExpr); ok && !sl.Slice3 && sl.High == nil && sl.Low != nil {
+									if tv, ok := rootPackage.TypesInfo.Types[sl.Low]; ok && tv.Value != nil {
+										if id, ok := paren(sl.X).(*ast.Ident); ok && len(fd.Recv.List) == 1 && len(fd.Recv.List[0].Names) == 1 && id.Name == fd.Recv.List[0].Names[0].Name {
+											x := t.fresh()
+											t.emit("let %s ← %s.from_ m %s", x, base.lean, tv.Value.ExactString())
+											return x, nil
+										}
+									}
+								}
+							}
+						}
+					}
+				}
 			}
 		}
 	}
@@ -496,6 +540,71 @@ func (t *sendTr) sendStmt(s ast.Stmt, next ast.Stmt) (handled bool, skipNext boo
 			}
 		}
 	}
+	if is, ok := s.(*ast.IfStmt); ok && is.Init == nil && is.Else == nil && !t.sent {
+		// if cs == 0 { cs = C } on a checksum variable
+		if be, ok := paren(is.Cond).(*ast.BinaryExpr); ok && be.Op == token.EQL && len(is.Body.List) == 1 {
+			if v, o := t.obj(be.X); v != nil && v.kind == kU16 {
+				if as, ok := is.Body.List[0].(*ast.AssignStmt); ok && len(as.Lhs) == 1 && len(as.Rhs) == 1 && as.Tok == token.ASSIGN {
+					if _, o2 := t.obj(as.Lhs[0]); o2 == o {
+						c0, ok1 := t.constVal(be.Y)
+						c1, ok2 := t.constVal(as.Rhs[0])
+						if ok1 && ok2 {
+							t.emit("let %s : UInt16 := if %s == %s then %s else %s", v.lean, v.lean, c0, c1, v.lean)
+							return true, false, nil
+						}
+					}
+				}
+			}
+		}
+		// if <cond> { a complete send path ending in return }: the rest of the function is the else branch
+		hasSend := false
+		ast.Inspect(is.Body, func(n ast.Node) bool {
+			if e, ok := n.(ast.Expr); ok && writeToFrame(e) != nil {
+				hasSend = true
+			}
+			return !hasSend
+		})
+		if hasSend && blockEndsInReturn(is.Body) {
+			c, err := t.sendCond(is.Cond)
+			if err != nil {
+				return true, false, err
+			}
+			saved, ind, env := t.lines, t.indent, map[types.Object]*evar{}
+			for k, v := range t.env {
+				env[k] = v
+			}
+			t.lines, t.indent = nil, ind+"  "
+			list := is.Body.List
+			for i := 0; i < len(list); i++ {
+				var next ast.Stmt
+				if i+1 < len(list) {
+					next = list[i+1]
+				}
+				handled, skip, err := t.sendStmt(list[i], next)
+				if err == nil && !handled {
+					err = t.stmt(list[i])
+				}
+				if err != nil {
+					t.lines, t.indent = saved, ind
+					return true, false, err
+				}
+				if skip {
+					i++
+				}
+			}
+			if !t.sent {
+				t.lines, t.indent = saved, ind
+				return true, false, fail("branch without a transmission")
+			}
+			body := t.lines
+			t.lines, t.indent, t.env, t.sent, t.done = saved, ind, env, false, false
+			t.emit("if %s then (do", c)
+			t.lines = append(t.lines, body...)
+			t.emit("  ) else do")
+			t.indent += "  "
+			return true, false, nil
+		}
+	}
 	if rs, ok := s.(*ast.ReturnStmt); ok && t.wrapper && len(rs.Results) == 1 {
 		if c, ok := paren(rs.Results[0]).(*ast.CallExpr); ok {
 			app, err := t.senderCall(c)
@@ -650,6 +759,34 @@ func (t *sendTr) sendStmt(s ast.Stmt, next ast.Stmt) (handled bool, skipNext boo
 		}
 		return true, false, fail("if statement %s", types.ExprString(x.Cond))
 	case *ast.AssignStmt:
+		if len(x.Rhs) == 2 && len(x.Lhs) == 2 && x.Tok == token.ASSIGN {
+			// x[i], x[j] = a, b: the operands are evaluated first (they cannot panic here: variables and conversions),
+			// then the stores happen left to right
+			var outs []string
+			for k := 0; k < 2; k++ {
+				ix, ok := x.Lhs[k].(*ast.IndexExpr)
+				if !ok {
+					return true, false, fail("tuple assignment")
+				}
+				base := t.slOf(ix.X)
+				if base == nil {
+					return true, false, fail("tuple store into something other than a frame slice")
+				}
+				i, ok := t.constVal(ix.Index)
+				if !ok {
+					return true, false, fail("tuple store index")
+				}
+				v, kv, err := t.u8(x.Rhs[k])
+				if err != nil || kv != kU8 {
+					return true, false, fail("tuple store of a non-byte")
+				}
+				outs = append(outs, fmt.Sprintf("let m ← %s.put8 m %s %s", base.lean, i, v))
+			}
+			for _, o := range outs {
+				t.emit("%s", o)
+			}
+			return true, false, nil
+		}
 		if len(x.Rhs) != 1 {
 			return false, false, nil
 		}
@@ -659,6 +796,28 @@ func (t *sendTr) sendStmt(s ast.Stmt, next ast.Stmt) (handled bool, skipNext boo
 			id := x.Lhs[0].(*ast.Ident)
 			t.pool = t.info.Defs[id]
 			t.emit("let m : Mem := g")
+			return true, false, nil
+		}
+		// ether := Ether(make([]byte, N)): the frame buffer is allocated (zeroed), not taken from the pool
+		if n, ok := t.isFrameAlloc(rhs); ok && len(x.Lhs) == 1 && x.Tok == token.DEFINE && t.pool == nil {
+			lhs := x.Lhs[0].(*ast.Ident)
+			t.pool = t.info.Defs[lhs]
+			t.emit("let m : Mem := List.replicate %s 0", n)
+			t.emit("let %s := whole m", leanName(lhs.Name))
+			t.bind(lhs, kSl)
+			t.dict["Ether(make([]byte, N)) = a zeroed buffer of N bytes (the argument g is not used)"] = true
+			return true, false, nil
+		}
+		// cs := Checksum(y)
+		if c, ok := rhs.(*ast.CallExpr); ok && len(c.Args) == 1 && len(x.Lhs) == 1 && x.Tok == token.DEFINE && (exprStr(c.Fun) == "Checksum" || exprStr(c.Fun) == "packet.Checksum") {
+			a, err := t.bytesArg(c.Args[0])
+			if err != nil {
+				return true, false, err
+			}
+			lhs := x.Lhs[0].(*ast.Ident)
+			t.dict["Checksum = checksum"] = true
+			t.emit("let %s : UInt16 := checksum %s", leanName(lhs.Name), a)
+			t.bind(lhs, kU16)
 			return true, false, nil
 		}
 		// _, err = conn.WriteTo(frame, …)
@@ -756,6 +915,27 @@ func (t *sendTr) sendStmt(s ast.Stmt, next ast.Stmt) (handled bool, skipNext boo
 		return false, false, nil
 	}
 	return false, false, nil
+}
+
+// u8: byte(cs) / byte(cs >> 8) of a UInt16 variable, else num
+func (t *sendTr) u8(e ast.Expr) (string, ekind, error) {
+	e = paren(e)
+	if c, ok := e.(*ast.CallExpr); ok && len(c.Args) == 1 {
+		if tv, ok := t.info.Types[c.Fun]; ok && tv.IsType() && basicKind(tv.Type) == types.Uint8 {
+			in := paren(c.Args[0])
+			if v, _ := t.obj(in); v != nil && v.kind == kU16 {
+				return v.lean + ".toUInt8", kU8, nil
+			}
+			if be, ok := in.(*ast.BinaryExpr); ok && be.Op == token.SHR {
+				if v, _ := t.obj(be.X); v != nil && v.kind == kU16 {
+					if n, ok := t.constVal(be.Y); ok {
+						return "(" + v.lean + " >>> " + n + ").toUInt8", kU8, nil
+					}
+				}
+			}
+		}
+	}
+	return t.num(e)
 }
 
 // sendCond: conditions of the address-family guards
@@ -1067,13 +1247,22 @@ func senderFacts(pkgs []*packages.Package, root *packages.Package, b *strings.Bu
 				if !ok || fd.Body == nil {
 					continue
 				}
-				uses := false
+				uses, alloc, writes := false, false, false
 				ast.Inspect(fd.Body, func(n ast.Node) bool {
 					if e, ok := n.(ast.Expr); ok && isPoolGet(e) {
 						uses = true
 					}
-					return !uses
+					if e, ok := n.(ast.Expr); ok && writeToFrame(e) != nil {
+						writes = true
+					}
+					if c, ok := n.(*ast.CallExpr); ok && len(c.Args) == 1 && (exprStr(c.Fun) == "packet.Ether" || exprStr(c.Fun) == "Ether") {
+						if mk, ok := paren(c.Args[0]).(*ast.CallExpr); ok && exprStr(mk.Fun) == "make" {
+							alloc = true
+						}
+					}
+					return true
 				})
+				uses = uses || (alloc && writes)
 				if !uses {
 					continue
 				}
